@@ -296,6 +296,23 @@ fn emit(out: &mut Out, text: &str, costs_in: Option<Vec<u8>>, rng: &mut Rng, kin
     // the same FIRST/FOLLOW/epsilon bits again, for the comparison with the Lean MODEL of
     // YaccFirsts::new / YaccFollows::new (driver line `Mf`; a difference there breaks the tie)
     out.imp(id, "If", &format!("eps {} first {} follow {}", bits(&eps), bits(&first), bits(&follow)));
+    // has_path, the two cost vectors and the minimal sentences again, for the comparison with the Lean
+    // MODELS of has_path / rule_min_costs / rule_max_costs / min_sentence (driver line `Mc`)
+    let sent_txt = |s: &String| match s.as_str() {
+        "H" | "P" | "U" => s.clone(),
+        x => format!("[{}]", x.split(' ').skip(1).collect::<Vec<_>>().join(",")),
+    };
+    out.imp(
+        id,
+        "Ic",
+        &format!(
+            "path {} mincost {} maxcost {} minsent {}",
+            bits(&path),
+            mincost.join(" "),
+            maxcost.join(" "),
+            minsent.iter().map(sent_txt).collect::<Vec<_>>().join(" ")
+        ),
+    );
     if hfail.is_none() && g.firsts().firsts(g.start_rule_idx()).len() != nt {
         hfail = Some("firsts() vob has wrong length".to_string());
     }
@@ -325,6 +342,22 @@ fn emit(out: &mut Out, text: &str, costs_in: Option<Vec<u8>>, rng: &mut Rng, kin
     if out.next_id % 41 == 1 {
         out.sample(desc);
     }
+}
+
+/// minimised past failures of the cost loops (grammar, token costs)
+fn extras() -> Vec<(String, Vec<u8>)> {
+    let toks = |n: usize| vec!["'t'"; n].join(" ");
+    vec![
+        // rule_max_costs: I's first production completes one sweep before its second one; the interim
+        // cost of I dropped and a debug assertion failed (fixed: 290e7fe)
+        (
+            "%start S\n%%\nS: B I C D E F;\nB: D 'b' 'b' 'b';\nI: B | C 'x';\nC: E;\nD: 'd';\nE: F;\nF: 'f';".to_string(),
+            vec![1; 8],
+        ),
+        // rule_min_costs: every minimal cost fits a u16 (S 50000, A 50000, B 40000) but the dearer
+        // production `B B` of S is summed too (finding C17-mincost-overflow-dearer-production)
+        (format!("%start S\n%%\nS: A | B B | S;\nA: {};\nB: {};", toks(250), toks(200)), vec![200; 4]),
+    ]
 }
 
 pub fn run(a: &Args) {
@@ -357,6 +390,9 @@ pub fn run(a: &Args) {
     for t in grammar::classics() {
         emit(&mut out, t, Some(vec![1; 16]), &mut rng, "classic");
         emit(&mut out, t, None, &mut rng, "classic");
+    }
+    for (t, costs) in extras() {
+        emit(&mut out, &t, Some(costs), &mut rng, "extra");
     }
     let n = if a.thorough { 4000 } else { 300 };
     let cfg = GenCfg::default();
